@@ -3,9 +3,6 @@ HOOK_COMMITS = ["cf09ee52", "8fd24c77"]
 
 _WIP = "not built"
 NOT_APPLICABLE = {
-    "C06": "not claimed: the strict-subset half is only implied by the C01 parse_args harnesses (flags fully symbolic against one rule "
-           "table); the commutation half needs two-condition runs of parse_conditions (2 x 150-300 s per pair of arms) and was not "
-           "built in the time available - no dedicated check, so no claim",
     "C09": "not claimed: the CREATE_COIN scan of additions_and_removals is a private loop body (needs a slicing hook) and the other "
            "helpers sit behind run_program; no harness was built",
     "C07": "needs symbolic execution of clvmr::run_program (the legacy path is a CLVM program run by the interpreter); "
